@@ -25,7 +25,7 @@ TB_STUB = ['kani::stub of bytes::BytesMut::reserve_inner by a function that asse
 PROPS = {
     'C02': dict(
         level='proof',
-        verus_units=['broker_serial_map', 'broker_object', 'broker_handlers_calls'],
+        verus_units=['broker_serial_map', 'broker_object', 'broker_state', 'broker_handlers_calls'],
         trusted_base=TB_VERUS + TB_CONN + [
             'contracts of SerialMap / Object / Service / ConnectionState methods are imported verbatim from the units '
             'that verify them (//@fn-from); ConnectionState::call_data is assumed (tuple-pattern closure)',
